@@ -370,6 +370,7 @@ package iavl
 //@   requires len(nk) >= 12
 //@   ensures [nilonerr] err != nil ==> node == nil
 //@   ensures [keyed] err == nil ==> node != nil && node.nodeKey != nil
+//@   ensures [childkeys] err == nil && node.subtreeHeight != 0 ==> (len(node.leftNodeKey) == 12 || len(node.leftNodeKey) == 32) && (len(node.rightNodeKey) == 12 || len(node.rightNodeKey) == 32)
 //@   modifies *
 
 //@ func MakeLegacyNode(hash, buf) (node, err)
